@@ -64,7 +64,7 @@ theorem C13.wdom_assume_counterexample : ¬ C13.wdom_assume_Statement := by
   intro h
   have hty : C13.TyOk wd := fun _ => ⟨by show 1 ≤ 8; decide, by show 8 ≤ 64; decide⟩
   have hgood : Good (wd 0) (WInt.single ⟨8, 128⟩) := good_of_shape (by decide)
-  have hinv := C13.wdom_set_inv' wd WDom.Env.top 0 (by decide) (WInt.single ⟨8, 128⟩) inv_top (typed_top wd) hgood
+  have hinv := C13.wdom_set_inv_typed wd WDom.Env.top 0 (by decide) (WInt.single ⟨8, 128⟩) inv_top (typed_top wd) hgood
   have hγ : γ wd e0 σ0 :=
     set_sound (wd := wd) inv_top (by decide) (γ_top wd (fun _ => 0)) (by decide : mem (wd 0) 128 (WInt.single ⟨8, 128⟩))
   have hst : C13.StOk wd σ0 := by
@@ -196,7 +196,7 @@ open C13.AssumeCex in
 /-- a non-bottom, non-top, well-typed environment with the invariant and a state it describes -/
 example : Inv e0 ∧ Typed wd e0 ∧ γ wd e0 σ0 ∧ XDom.Env.isTop e0 = false ∧ e0.isBot = false := by
   have hgood : Good (wd 0) (WInt.single ⟨8, 128⟩) := good_of_shape (by decide)
-  have hinv := C13.wdom_set_inv' wd WDom.Env.top 0 (by decide) (WInt.single ⟨8, 128⟩) inv_top (typed_top wd) hgood
+  have hinv := C13.wdom_set_inv_typed wd WDom.Env.top 0 (by decide) (WInt.single ⟨8, 128⟩) inv_top (typed_top wd) hgood
   exact ⟨hinv.1, hinv.2,
     set_sound (wd := wd) inv_top (by decide) (γ_top wd (fun _ => 0)) (by decide : mem (wd 0) 128 (WInt.single ⟨8, 128⟩)),
     by decide, by decide⟩
